@@ -42,14 +42,21 @@ def real_parse(data: bytes):
     """-> ("parsed", ast, rest) | ("bad", text) | ("other", repr) | ("hang",) | ("unconvertible", why)"""
     import asimap.parse as P
 
+    # the APPEND literal is handed to email.message_from_string (message_from_bytes after the C16 fix):
+    # capture it there, whichever of the two names the module uses
     captured = []
-    orig = P.message_from_string
+    origs = {}
 
-    def cap(s, *a, **k):
-        captured.append(s)
-        return orig(s, *a, **k)
+    def mk(orig):
+        def cap(s, *a, **k):
+            captured.append(s.decode("latin-1") if isinstance(s, (bytes, bytearray)) else s)
+            return orig(s, *a, **k)
+        return cap
 
-    P.message_from_string = cap
+    for nm in ("message_from_string", "message_from_bytes"):
+        if hasattr(P, nm):
+            origs[nm] = getattr(P, nm)
+            setattr(P, nm, mk(origs[nm]))
     old = signal.signal(signal.SIGALRM, _alarm)
     try:
         c = P.IMAPClientCommand(data.decode("latin-1"))
@@ -70,7 +77,8 @@ def real_parse(data: bytes):
         return ("other", repr(e)[:300])
     finally:
         signal.signal(signal.SIGALRM, old)
-        P.message_from_string = orig
+        for nm, o in origs.items():
+            setattr(P, nm, o)
 
 
 def observed_term(o) -> str:
@@ -144,7 +152,7 @@ def finding(ctx, fid, what, replay):
     if is_listed(ctx, fid):
         if not any(k["id"] == fid for k in ctx.known_hit):
             ctx.known_finding(fid, what)
-    else:
+    elif not any(fid in v["what"] for v in ctx.violations):
         ctx.violation(what + f" (proposed known finding {fid}, not listed in known_findings.json)", replay)
 
 
